@@ -17,7 +17,7 @@ import sys
 
 HERE = os.path.dirname(os.path.abspath(__file__))
 ROOT = os.path.dirname(HERE)
-LEAN_GEN = os.path.join(ROOT, "lean", "PV", "Generated")
+LEAN_GEN = os.path.join(os.environ.get("PV_LEAN_DIR") or os.path.join(ROOT, "lean"), "PV", "Generated")
 REPO = os.environ.get("PV_REPO", "/repo")
 
 
